@@ -418,14 +418,64 @@ def load_const_lists(F):
                 CONST_LISTS[p] = [unwrap(el)["ctor"] for el in x["es"]]
 
 
+class _Return(Exception):
+    def __init__(self, v):
+        self.v = v
+
+
+def _eval_variant(e, variant):
+    """The enum value an expression denotes: `self` / `*self` is the variant under evaluation, a unit-variant path is itself."""
+    e = unwrap(e)
+    while e.get("k") in ("un", "ref") and (e.get("k") == "ref" or e.get("op") == "Deref"):
+        e = unwrap(e["e"])
+    if e.get("k") == "path" and e["res"].get("name") == "self":
+        return variant
+    if e.get("k") == "path" and e.get("ctor"):
+        return e["ctor"]
+    return None
+
+
 def eval_bool(e, variant, disc):
     """Evaluate a pure boolean expression over `self` for one concrete variant; None = not understood."""
+    try:
+        return _eval_bool(e, variant, disc)
+    except _Return as r:
+        return r.v
+
+
+def _eval_bool(e, variant, disc):
     e = unwrap(e)
     k = e.get("k")
     if k == "lit" and isinstance(e["v"], bool):
         return e["v"]
+    if k in ("blockx", "block"):
+        blk = e["b"] if k == "blockx" else e
+        for st in blk.get("stmts", []):
+            if st.get("k") in ("semi", "expr"):
+                x = unwrap(st["e"])
+                if x.get("k") in ("if", "ret", "blockx", "block"):
+                    if _eval_bool(x, variant, disc) is None and x.get("k") != "if":
+                        return None
+                    continue
+            return None         # a statement this evaluator does not understand
+        return _eval_bool(blk["expr"], variant, disc) if "expr" in blk else "unit"
+    if k == "ret":
+        v = _eval_bool(e["e"], variant, disc) if "e" in e else None
+        if v is None:
+            raise _Return(None)
+        raise _Return(v)
+    if k == "if" and unwrap(e["c"]).get("k") != "letx":
+        c = _eval_bool(e["c"], variant, disc)
+        if c is None or c == "unit":
+            raise _Return(None)
+        if c:
+            return _eval_bool(e["t"], variant, disc)
+        return _eval_bool(e["e"], variant, disc) if "e" in e else "unit"
+    if k == "bin" and e["op"] in ("Eq", "Ne") and _eval_variant(e["a"], variant) is not None and _eval_variant(e["b"], variant) is not None:
+        same_ = _eval_variant(e["a"], variant) == _eval_variant(e["b"], variant)
+        return same_ if e["op"] == "Eq" else not same_
     if k == "un" and e.get("op") == "Not":
-        v = eval_bool(e["e"], variant, disc)
+        v = _eval_bool(e["e"], variant, disc)
         return None if v is None else (not v)
     if k == "mcall" and e.get("name") == "contains" and str(e.get("callee") or "").endswith("::contains") and len(e.get("args", [])) == 1:
         # `CONST_LIST.contains(self)` with a named constant array of unit variants: membership of this variant in the list
@@ -439,7 +489,7 @@ def eval_bool(e, variant, disc):
             return variant in lst
         return None
     if k == "bin" and e["op"] in ("And", "Or"):
-        a, b = eval_bool(e["a"], variant, disc), eval_bool(e["b"], variant, disc)
+        a, b = _eval_bool(e["a"], variant, disc), _eval_bool(e["b"], variant, disc)
         if a is None or b is None:
             return None
         return (a and b) if e["op"] == "And" else (a or b)
@@ -471,12 +521,12 @@ def eval_bool(e, variant, disc):
                     return None
             if hit:
                 if "guard" in arm:
-                    g = eval_bool(arm["guard"], variant, disc)
+                    g = _eval_bool(arm["guard"], variant, disc)
                     if g is None:
                         return None
                     if not g:
                         continue
-                return eval_bool(arm["body"], variant, disc)
+                return _eval_bool(arm["body"], variant, disc)
         return None
     return None
 
